@@ -25,6 +25,7 @@ EXPLANATION = (
     "shape; and that the branch conditions of splits are syntactic complements. It does not decide that "
     "the union of path conditions covers the input space (values)."
     ' Also evaluated here: the jump-destination scanner rules of C19 (a JUMPDEST the scanner loses is a feasible target that is never explored).'
+    ' Also evaluated here (round 4): fork-copy completeness (C20 R20.1) - state shared between sibling paths makes the later sibling skip alternatives.'
 )
 ASSUMPTIONS = [
     "z3 simplify() and is_false()/is_true() are sound",
